@@ -1026,14 +1026,43 @@ class NAHooks(Hooks):
                                            if i == j else zero)
                         Vt[idx + (k, i)] = one if i == j else zero
                 continue
-            if compute_uv:
-                raise Undecided('np.linalg.svd factors of a matrix that is '
-                                'not diagonal with ordered entries')
             S2 = p * p + q * q + r * r + t * t
             D = p * t - q * r
             inner = PA.root(S2 * S2 - 4 * D * D, 2, signs)
-            S_[idx + (0,)] = PA.root((S2 + inner) / 2, 2, signs)
-            S_[idx + (1,)] = PA.root((S2 - inner) / 2, 2, signs)
+            s1 = PA.root((S2 + inner) / 2, 2, signs)
+            s2 = PA.root((S2 - inner) / 2, 2, signs)
+            S_[idx + (0,)], S_[idx + (1,)] = s1, s2
+            if not compute_uv:
+                continue
+            # factors of a general matrix with distinct singular values:
+            # v1 = eigenvector of A^T A for s1^2, v2 its rotation, u_k =
+            # A v_k / s_k (any valid SVD; the pairs (u_k, v_k) are unique
+            # up to a joint sign)
+            if PA.full_sign(inner, signs or PA.Signs()) != 1:
+                raise Undecided('np.linalg.svd factors of a matrix whose '
+                                'singular values are not known to differ')
+            m00, m01 = p * p + r * r, p * q + r * t
+            ev = (m01, s1 * s1 - m00)
+            if PA.reduce_full(ev[0]).n.is_zero() and \
+                    PA.reduce_full(ev[1]).n.is_zero():
+                m11 = q * q + t * t
+                ev = (s1 * s1 - m11, m01)
+            nv = PA.root(ev[0] * ev[0] + ev[1] * ev[1], 2, signs)
+            if PA.reduce_full(nv).n.is_zero():
+                raise Undecided('np.linalg.svd factors (degenerate '
+                                'eigenvector)')
+            v1 = (PA.reduce_full(ev[0] / nv), PA.reduce_full(ev[1] / nv))
+            v2 = (-v1[1], v1[0])
+            u1 = (PA.reduce_full((p * v1[0] + q * v1[1]) / s1),
+                  PA.reduce_full((r * v1[0] + t * v1[1]) / s1))
+            if PA.reduce_full(s2).n.is_zero():
+                u2 = (-u1[1], u1[0])
+            else:
+                u2 = (PA.reduce_full((p * v2[0] + q * v2[1]) / s2),
+                      PA.reduce_full((r * v2[0] + t * v2[1]) / s2))
+            for i in range(2):
+                U[idx + (i, 0)], U[idx + (i, 1)] = u1[i], u2[i]
+                Vt[idx + (0, i)], Vt[idx + (1, i)] = v1[i], v2[i]
         if not compute_uv:
             return NA(S_, v.dt)
         return (NA(U, v.dt), NA(S_, v.dt), NA(Vt, v.dt))
